@@ -15,8 +15,8 @@ Definition nines : list Z := dbl 13 [57].
 (** X-Custom: =?nope?q?x?=  (LookupError),  "abc =?utf-8?q?x?=" (str + bytes: TypeError),
     =?utf-8?b?Q?= (HeaderParseError) *)
 Theorem c07_decode_text_refuted :
-  process_header cfg_written false [61;63;110;111;112;101;63;113;63;120;63;61] (DHAtoms [(true, 2, OExn ELookup)]) OOk = Crash ELookup 1
-  /\ process_header cfg_written false [97;98;99;32;61;63;117;116;102;45;56;63;113;63;120;63;61] (DHAtoms [(true, 0, OOk); (true, 2, OOk)]) OOk = Crash EType 2
+  process_header cfg_written false [61;63;110;111;112;101;63;113;63;120;63;61] (DHAtoms [(true, 2, OExn ELookup)] OOk) OOk = Crash ELookup 1
+  /\ process_header cfg_written false [97;98;99;32;61;63;117;116;102;45;56;63;113;63;120;63;61] (DHAtoms [(true, 0, OOk); (true, 2, OOk)] OOk) OOk = Crash EType 2
   /\ process_header cfg_written false [61;63;117;116;102;45;56;63;98;63;81;63;61] (DHRaise EHeaderParse) OOk = Crash EHeaderParse 0.
 Proof. repeat split; vm_compute; reflexivity. Qed.
 Print Assumptions c07_decode_text_refuted.
